@@ -122,6 +122,7 @@ func runGc(h *History, res *vf.Result) (string, []hit) {
 	refs := map[common.Hash]int{}     // meta references by the harness' own count
 	onDisk := map[common.Hash]bool{}  // roots committed to disk
 	var gops []string
+	memo := newMemo()
 	extEdges := map[common.Hash][]common.Hash{} // explicit references parent node -> child root
 	// reachable collects the node hashes reachable from a root (implicit and explicit edges)
 	var reachable func(root common.Hash, seen map[common.Hash]bool)
@@ -233,7 +234,25 @@ func runGc(h *History, res *vf.Result) (string, []hit) {
 				}
 				roots = append(roots, gcRoot{root, content})
 				count("gc:build")
-				gops = append(gops, "GInsert "+pairs(ins))
+				if len(ins) == 0 {
+					count("gc:build_inserts_nothing")
+				}
+				// Keccak memo for the model: the inserted blobs and the root blob
+				for _, p := range ins {
+					memo.hash(p[1])
+				}
+				if rb, err := triedb.Node(root); err == nil && rb != nil {
+					memo.hash(rb)
+				}
+				var kops []string
+				for _, o := range s.Ops {
+					if o.Kind == "delete" {
+						kops = append(kops, "KDelete "+bl(o.K))
+					} else {
+						kops = append(kops, fmt.Sprintf("KUpdate %s %s", bl(o.K), bl(o.V)))
+					}
+				}
+				gops = append(gops, fmt.Sprintf("GBuild %s [%s] %s %s", bl(hashB(base.hash)), strings.Join(kops, ";"), bl(root.Bytes()), pairs(ins)))
 				// reference it right away (the usage the state database follows)
 				if root != emptyRoot {
 					triedb.Reference(root, common.Hash{})
@@ -247,6 +266,16 @@ func runGc(h *History, res *vf.Result) (string, []hit) {
 					refs[r]++
 					count("gc:ref_again")
 					gops = append(gops, fmt.Sprintf("GReference %s (B 0 [])", bl(r.Bytes())))
+				}
+			case "refmany":
+				// many references to one root (only used by stored replay inputs)
+				if s.Root < len(roots) && refs[roots[s.Root].hash] > 0 {
+					r := roots[s.Root].hash
+					for j := 0; j < s.Limit; j++ {
+						triedb.Reference(r, common.Hash{})
+						refs[r]++
+					}
+					gops = nil // not a correspondence case
 				}
 			case "deref":
 				if s.Root < len(roots) && refs[roots[s.Root].hash] > 0 {
@@ -300,7 +329,11 @@ func runGc(h *History, res *vf.Result) (string, []hit) {
 		}
 		checkDisk(len(h.Gc))
 	}()
-	return fmt.Sprintf("mkCase false [] [] [%s]", strings.Join(gops, ";\n  ")), hits
+	var tab []string
+	for _, d := range memo.order {
+		tab = append(tab, "("+bl([]byte(d))+","+bl(memo.pairs[d])+")")
+	}
+	return fmt.Sprintf("mkCase false [%s] [] [%s]", strings.Join(tab, ";"), strings.Join(gops, ";\n  ")), hits
 }
 
 // extPool: keys that share the nibble path [0] or a path ending in 1,0 in front
